@@ -1,9 +1,6 @@
 package main
 
 import (
-	"go/token"
-	"strings"
-
 	"golang.org/x/tools/go/ssa"
 )
 
@@ -11,10 +8,10 @@ func init() {
 	register(&propDef{
 		ID:      "C05",
 		Level:   "other",
-		Explain: "Structural necessary conditions of the route command semantics: (K1) every index, update and delete on a route.Table uses a canonical host key — the result of strings.ToLower (or of a function all of whose returns are), a range key of a table, a constant, or Route.Host — checked interprocedurally through parameters and multi-value returns, so add, del and weight all address the same entry whatever the letter case of the command; (D1) in every Table method that calls Route.filter, each such call is followed on every path to return by the loop that rebuilds the host's route list without empty routes and by the loop that deletes hosts without routes; (G1) the keywords the renderer (Route.TargetConfig) emits — route add, weight, tags, opts — appear in the order the add grammar accepts them; (Q1) producers and consumer of quoted fields agree on the encoding: the parser takes the text between the quotes verbatim (no Unquote), so no producer of route commands (Route.TargetConfig, consul routecmd.build) may escape with %q / strconv.Quote; (W1) weighRoute reports 'no match' when setWeight changed nothing, and setWeight does not rebuild the ring in that case. (I1) URLs are compared by their text, never by pointer or shallow struct equality (idempotent add). Not decided: equality of the resulting table with an independent model over generated scripts, idempotence of add (value comparison of targets), the 4-decimal weight round trip (value equality of data structures).",
+		Explain: "Structural necessary conditions of the route command semantics; every rule finds its sites by ROLE (what an instruction does) in the whole package / repository, not by the name of the enclosing function. (K1) every index, update and delete on a route.Table uses a canonical host key — the result of strings.ToLower (or of a function all of whose returns are), a table range key, a constant, Route.Host, or a lower-case preserving operation on such values — followed through local cells and closures, helper parameters (all call sites, callbacks of visitors), multi-value returns, struct fields (all stores) and key slices, so add, del and weight all address the same entry whatever the letter case of the command; (D1) wherever targets are removed from a route (a store to Route.Targets that is not an append to it: Route.filter today), every path to return — in that function or, travelling up the static call sites, in every caller — runs a full pass over the table that stores for each host a route list from which target-less routes were left out, and then a full pass that deletes exactly the hosts whose list is empty (two loops, one merged loop, helpers, a deferred call, slices.DeleteFunc / maps.DeleteFunc are all recognised); (G1) the keywords the renderer of 'route add' commands emits — route add, weight, tags, opts — appear in the order the add grammar (the regular expression of package route that spells 'route add') accepts them: the order of the TEXT when the rendered string can be followed as a value through concatenation, Sprintf, Join and helper results, otherwise the order in which the pieces are written; (Q1) producers and consumer of quoted fields agree on the encoding: the parser takes the text between the quotes verbatim (no Unquote), so no producer of route commands (any function with a constant that begins 'route add': Route.TargetConfig, consul routecmd.build, and their helpers) may escape with %q / strconv.Quote; (W1) every caller of a weight setter (a function that assigns Target.FixedWeight of existing targets and returns how many / whether any matched) either hands the verdict on or returns an error on the branch where it is zero, and a function that assigns the weights itself and reports errors returns one on a branch that says none matched; (I1) URLs are compared by their text, never by pointer or shallow struct equality, and where a target is appended to Route.Targets an existing one is recognised by comparing URL.String() (idempotent add). Not decided: equality of the resulting table with an independent model over generated scripts, that the count returned by the weight setter counts matches rather than changes, the 4-decimal weight round trip (value equality of data structures).",
 		Run:     runC05,
 		Trusted: []string{"regexp capture groups return the matched text verbatim"},
-		Mutants: []mutant{
+		Mutants: append([]mutant{
 			{Name: "hostpath no longer lower-cases", File: "route/table.go", Old: "\thost, path = strings.ToLower(p[0]), \"\"", New: "\thost, path = p[0], \"\"", Expect: "C05.K1"},
 			{Name: "addRoute stores under the raw host", File: "route/table.go", Old: "\thost = strings.ToLower(host) // maintain compatibility with parseURLPrefixTag\n", New: "\thost = d.Src[:len(host)]\n", Expect: "C05.K1"},
 			{Name: "empty routes kept after a tag delete", File: "route/table.go", Old: "\t// remove all routes without targets\n\tfor host, routes := range t {", New: "\t// remove all routes without targets\n\tfor host, routes := range t {\n\t\tif len(d.Tags) > 0 {\n\t\t\tbreak\n\t\t}", Expect: "C05.D1"},
@@ -25,7 +22,7 @@ func init() {
 			{Name: "weight without a match reports success", File: "route/table.go", Old: "\tif n := t[host].find(path).setWeight(d.Service, d.Weight, d.Tags); n == 0 {\n\t\treturn errNoMatch\n\t}", New: "\tt[host].find(path).setWeight(d.Service, d.Weight, d.Tags)", Expect: "C05.W1"},
 			{Name: "targets de-duplicated by URL struct equality", File: "route/route.go", Old: "t.URL.String() == targetURL.String() && t.FixedWeight == fixedWeight", New: "*t.URL == *targetURL && t.FixedWeight == fixedWeight", Expect: "C05.I1"},
 			{Name: "benign: renderer with strings.Builder-like concatenation", File: "route/route.go", Old: "s += fmt.Sprintf(\" opts \\\"%s\\\"\", strings.Join(vals, \" \"))", New: "s += \" opts \\\"\" + strings.Join(vals, \" \") + \"\\\"\"", Expect: ""},
-		},
+		}, c05ExtraMutants...),
 	})
 }
 
@@ -36,532 +33,6 @@ func runC05(c *Ctx) {
 	runQuoting(c, "C05.Q1")
 	runC05W1(c)
 	runC05I1(c)
-}
-
-// ---- K1 -------------------------------------------------------------------------------------
-
-type keyCanon struct {
-	c     *Ctx
-	memo  map[ssa.Value]int
-	smemo map[ssa.Value]int
-}
-
-func (k *keyCanon) returnsCanonical(f *ssa.Function, idx int, depth int) bool {
-	if depth > 4 || len(f.Blocks) == 0 {
-		return false
-	}
-	ok := true
-	n := 0
-	eachInstr(f, func(i ssa.Instruction) {
-		r, isR := i.(*ssa.Return)
-		if !isR || idx >= len(r.Results) {
-			return
-		}
-		n++
-		if !k.canonical(r.Results[idx], depth+1) {
-			ok = false
-		}
-	})
-	return ok && n > 0
-}
-
-func (k *keyCanon) canonical(v ssa.Value, depth int) bool {
-	if depth > 6 {
-		return false
-	}
-	if st, seen := k.memo[v]; seen {
-		return st != 2 // in-progress counts as ok (cycles through phis)
-	}
-	k.memo[v] = 1
-	res := k.canonical1(v, depth)
-	if res {
-		k.memo[v] = 3
-	} else {
-		k.memo[v] = 2
-	}
-	return res
-}
-
-func (k *keyCanon) canonical1(v ssa.Value, depth int) bool {
-	switch x := v.(type) {
-	case *ssa.Const:
-		return true
-	case *ssa.Call:
-		if calleeName(&x.Call) == "strings.ToLower" {
-			return true
-		}
-		if sc := x.Call.StaticCallee(); sc != nil && isRepoFn(sc) && sc.Signature.Results().Len() == 1 {
-			return k.returnsCanonical(sc, 0, depth)
-		}
-		return false
-	case *ssa.Extract:
-		if nx, ok := x.Tuple.(*ssa.Next); ok {
-			if rg, ok := nx.Iter.(*ssa.Range); ok && x.Index == 1 && namedIs(rg.X.Type(), "route.Table") {
-				return true
-			}
-			return false
-		}
-		if call, ok := x.Tuple.(*ssa.Call); ok {
-			if sc := call.Call.StaticCallee(); sc != nil && isRepoFn(sc) {
-				return k.returnsCanonical(sc, x.Index, depth)
-			}
-		}
-		return false
-	case *ssa.Phi:
-		for _, e := range x.Edges {
-			if !k.canonical(e, depth+1) {
-				return false
-			}
-		}
-		return true
-	case *ssa.UnOp:
-		if x.Op == token.MUL {
-			if _, ok := fieldOf(x, "route.Route", "Host"); ok {
-				return true
-			}
-			// local variable cell
-			if a, ok := x.X.(*ssa.Alloc); ok {
-				okAll, n := true, 0
-				for _, r := range *a.Referrers() {
-					if st, ok := r.(*ssa.Store); ok && st.Addr == a {
-						n++
-						if !k.canonical(st.Val, depth+1) {
-							okAll = false
-						}
-					}
-				}
-				return okAll && n > 0
-			}
-			// element of a []string that only ever receives canonical values (hosts lists built from table keys)
-			if ia, ok := x.X.(*ssa.IndexAddr); ok {
-				return k.canonicalSlice(ia.X, depth+1)
-			}
-		}
-		return false
-	case *ssa.Parameter:
-		f := x.Parent()
-		idx := -1
-		for i, p := range f.Params {
-			if p == x {
-				idx = i
-			}
-		}
-		okAll, n := true, 0
-		for _, g := range k.c.AllFns {
-			eachInstr(g, func(i ssa.Instruction) {
-				cc := callCommon(i)
-				if cc == nil || cc.StaticCallee() != f || idx >= len(cc.Args) {
-					return
-				}
-				n++
-				if !k.canonical(cc.Args[idx], depth+1) {
-					okAll = false
-				}
-			})
-		}
-		return okAll && n > 0
-	case *ssa.Slice:
-		return k.canonical(x.X, depth+1)
-	}
-	return false
-}
-
-func (k *keyCanon) canonicalSlice(v ssa.Value, depth int) bool {
-	if depth > 12 {
-		return false
-	}
-	if k.smemo == nil {
-		k.smemo = map[ssa.Value]int{}
-	}
-	if st, seen := k.smemo[v]; seen {
-		return st != 2
-	}
-	k.smemo[v] = 1
-	res := k.canonicalSlice1(v, depth)
-	if res {
-		k.smemo[v] = 3
-	} else {
-		k.smemo[v] = 2
-	}
-	return res
-}
-
-func (k *keyCanon) canonicalSlice1(v ssa.Value, depth int) bool {
-	// every append into / call producing the slice yields canonical strings
-	switch x := v.(type) {
-	case *ssa.Phi:
-		for _, e := range x.Edges {
-			if !k.canonicalSlice(e, depth+1) {
-				return false
-			}
-		}
-		return true
-	case *ssa.Const:
-		return true
-	case *ssa.MakeSlice:
-		return true // zero values; element stores are not tracked (documented imprecision)
-	case *ssa.Slice:
-		if arr, ok := x.X.(*ssa.Alloc); ok {
-			for _, r := range *arr.Referrers() {
-				if ia, ok := r.(*ssa.IndexAddr); ok {
-					for _, r2 := range *ia.Referrers() {
-						if st, ok := r2.(*ssa.Store); ok && !k.canonical(st.Val, depth+1) {
-							return false
-						}
-					}
-				}
-			}
-			return true
-		}
-		return k.canonicalSlice(x.X, depth+1)
-	case *ssa.Call:
-		n := calleeName(&x.Call)
-		if n == "builtin.append" {
-			if !k.canonicalSlice(x.Call.Args[0], depth+1) {
-				return false
-			}
-			// appended elements: variadic slice of an array alloc
-			if sl, ok := x.Call.Args[1].(*ssa.Slice); ok {
-				if arr, ok := sl.X.(*ssa.Alloc); ok {
-					for _, r := range *arr.Referrers() {
-						if ia, ok := r.(*ssa.IndexAddr); ok {
-							for _, r2 := range *ia.Referrers() {
-								if st, ok := r2.(*ssa.Store); ok && !k.canonical(st.Val, depth+1) {
-									return false
-								}
-							}
-						}
-					}
-					return true
-				}
-			}
-			return k.canonicalSlice(x.Call.Args[1], depth+1)
-		}
-		if sc := x.Call.StaticCallee(); sc != nil && isRepoFn(sc) && depth < 5 {
-			ok := true
-			eachInstr(sc, func(i ssa.Instruction) {
-				if r, isR := i.(*ssa.Return); isR && len(r.Results) > 0 && !k.canonicalSlice(r.Results[0], depth+1) {
-					ok = false
-				}
-			})
-			return ok
-		}
-		return false
-	case *ssa.Parameter:
-		// caller-owned slice rewritten in place (sortHostsReverseHostPort): accepted when all callers pass canonical slices
-		f := x.Parent()
-		idx := -1
-		for i, p := range f.Params {
-			if p == x {
-				idx = i
-			}
-		}
-		okAll, n := true, 0
-		for _, g := range k.c.AllFns {
-			eachInstr(g, func(i ssa.Instruction) {
-				cc := callCommon(i)
-				if cc == nil || cc.StaticCallee() != f || idx >= len(cc.Args) {
-					return
-				}
-				n++
-				if !k.canonicalSlice(cc.Args[idx], depth+1) {
-					okAll = false
-				}
-			})
-		}
-		return okAll && n > 0
-	}
-	return false
-}
-
-// runTableKeys checks every key used on a route.Table in non-test repo code.
-func runTableKeys(c *Ctx, rule string) {
-	k := &keyCanon{c: c, memo: map[ssa.Value]int{}}
-	n := 0
-	for _, f := range c.AllFns {
-		eachInstr(f, func(i ssa.Instruction) {
-			var m, key ssa.Value
-			what := ""
-			switch x := i.(type) {
-			case *ssa.Lookup:
-				m, key, what = x.X, x.Index, "lookup"
-			case *ssa.MapUpdate:
-				m, key, what = x.Map, x.Key, "update"
-			case *ssa.Call:
-				if calleeName(&x.Call) == "builtin.delete" {
-					m, key, what = x.Call.Args[0], x.Call.Args[1], "delete"
-				}
-			}
-			if m == nil || !namedIs(m.Type(), "route.Table") {
-				return
-			}
-			n++
-			c.check(rule, fnKey(f)+"|table "+what+" with a canonical host key", i.Pos(), k.canonical(key, 0),
-				"the table is keyed by lower-cased host names (addRoute stores them so); a key that is not derived from strings.ToLower, a table range key, a constant or Route.Host addresses a different entry: 'route del svc Foo.com/' deletes nothing and 'route weight' reports no match")
-		})
-	}
-	c.atLeast(rule, "index/update/delete sites on route.Table", n, 3)
-}
-
-// ---- D1 -------------------------------------------------------------------------------------
-
-func runC05D1(c *Ctx) {
-	filter := c.method("route", "Route", "filter")
-	if !c.need("C05.D1", filter, "route.Route.filter") {
-		return
-	}
-	n := 0
-	for _, f := range c.AllFns {
-		if f.Signature.Recv() == nil || !namedIs(f.Signature.Recv().Type(), "route.Table") {
-			continue
-		}
-		var calls []ssa.Instruction
-		eachInstr(f, func(i ssa.Instruction) {
-			if staticCalleeIs(i, filter) {
-				calls = append(calls, i)
-			}
-		})
-		if len(calls) == 0 {
-			continue
-		}
-		recv := f.Params[0]
-		// cleanup loops: a range over the receiver whose body rebuilds t[host] / deletes hosts under len == 0
-		var rebuild, drop ssa.Instruction
-		for _, l := range loopsOf(f) {
-			var rg ssa.Instruction
-			for _, in := range l.Head.Instrs {
-				if nx, ok := in.(*ssa.Next); ok {
-					if r, ok := nx.Iter.(*ssa.Range); ok && r.X == recv {
-						rg = r
-					}
-				}
-			}
-			if rg == nil {
-				continue
-			}
-			// the loop must visit every host: no exit other than exhaustion
-			earlyExit := false
-			for b := range l.Body {
-				if b == l.Head {
-					continue
-				}
-				for _, sx := range b.Succs {
-					if !l.Body[sx] {
-						earlyExit = true
-					}
-				}
-			}
-			if earlyExit {
-				continue
-			}
-			for b := range l.Body {
-				for _, in := range b.Instrs {
-					if mu, ok := in.(*ssa.MapUpdate); ok && mu.Map == recv {
-						// executed on every iteration: the body cannot return to the head without it
-						skip := false
-						for _, entry := range l.Head.Succs {
-							if l.Body[entry] && entry != l.Head && pathAvoidingFromBlockTo(entry, l.Head, func(i ssa.Instruction) bool { return i == in }) {
-								skip = true
-							}
-						}
-						if !skip {
-							rebuild = rg
-						}
-					}
-					if cc := callCommon(in); cc != nil && calleeName(cc) == "builtin.delete" && cc.Args[0] == recv {
-						guard := false
-						for _, ft := range factsAt(b) {
-							if bo, ok := ft.Cond.(*ssa.BinOp); ok && bo.Op == token.EQL && ft.Truth {
-								if lc, ok := bo.X.(*ssa.Call); ok && calleeName(&lc.Call) == "builtin.len" {
-									if z, ok := constInt(bo.Y); ok && z == 0 {
-										guard = true
-									}
-								}
-							}
-						}
-						if guard {
-							drop = rg
-						}
-					}
-				}
-			}
-		}
-		for _, call := range calls {
-			n++
-			okR, okD := rebuild != nil, drop != nil
-			if okR {
-				_, open := exitReachableAvoiding(call, func(i ssa.Instruction) bool { return i == rebuild })
-				okR = !open
-			}
-			if okD {
-				_, open := exitReachableAvoiding(call, func(i ssa.Instruction) bool { return i == drop })
-				okD = !open
-			}
-			c.check("C05.D1", fnKey(f)+"|filter followed by removal of empty routes and hosts", call.Pos(), okR && okD,
-				"after targets were removed from a route, every path to return must run the loop that rebuilds each host's route list without target-less routes and the loop that deletes hosts without routes; otherwise 'route del' leaves empty routes/hosts behind (they shadow less specific routes and answer 'no route')")
-		}
-	}
-	c.atLeast("C05.D1", "Route.filter calls in Table methods", n, 4)
-}
-
-// ---- G1 -------------------------------------------------------------------------------------
-
-func runC05G1(c *Ctx) {
-	tc := c.method("route", "Route", "TargetConfig")
-	if !c.need("C05.G1", tc, "route.Route.TargetConfig") {
-		return
-	}
-	// grammar order from the add regexp
-	reAdd := c.global("route", "reAdd")
-	if reAdd == nil {
-		c.undecided("C05.G1", "route.reAdd", "add grammar not found")
-		return
-	}
-	pat := ""
-	initFn := c.spkg("route").Func("init")
-	eachInstr(initFn, func(i ssa.Instruction) {
-		if st, ok := i.(*ssa.Store); ok && st.Addr == reAdd {
-			if call, ok := st.Val.(*ssa.Call); ok && len(call.Call.Args) == 1 {
-				pat, _ = constString(call.Call.Args[0])
-			}
-		}
-	})
-	order := []string{"route add", "weight", "tags", "opts"}
-	last := -1
-	okGrammar := pat != ""
-	for _, kw := range order {
-		p := strings.Index(pat, kw)
-		if p < 0 || p < last {
-			okGrammar = false
-		}
-		last = p
-	}
-	if !okGrammar {
-		c.undecided("C05.G1", "route.reAdd|keyword order", "the add grammar no longer has the form route add .. weight .. tags .. opts: "+pat)
-		return
-	}
-	// renderer: constant fragments containing each keyword, in program order
-	frag := map[string][]ssa.Instruction{}
-	eachInstr(tc, func(i ssa.Instruction) {
-		for _, op := range i.Operands(nil) {
-			if op == nil || *op == nil {
-				continue
-			}
-			if s, ok := constString(*op); ok {
-				for _, kw := range order {
-					if strings.Contains(s, kw+" ") || strings.HasPrefix(strings.TrimSpace(s), kw) {
-						frag[kw] = append(frag[kw], i)
-					}
-				}
-			}
-		}
-	})
-	ok := true
-	detail := ""
-	for k := 0; k < len(order); k++ {
-		if len(frag[order[k]]) == 0 {
-			ok, detail = false, "the renderer no longer emits '"+order[k]+"'"
-		}
-		for j := k + 1; j < len(order); j++ {
-			for _, a := range frag[order[k]] {
-				for _, b := range frag[order[j]] {
-					if pathAvoiding(b, a, nil) {
-						ok, detail = false, "'"+order[j]+"' can be emitted before '"+order[k]+"'"
-					}
-				}
-			}
-		}
-	}
-	c.check("C05.G1", "route.(*Route).TargetConfig|keywords in the order the add grammar accepts", tc.Pos(), ok,
-		"the text rendering of a table must be accepted by the parser: the add grammar is 'route add <svc> <src> <dst>[ weight <w>][ tags \"..\"][ opts \"..\"]' in that order; "+detail)
-}
-
-// ---- Q1 -------------------------------------------------------------------------------------
-
-// runQuoting: producers of quoted fields vs. the consumer in the route parser.
-func runQuoting(c *Ctx, rule string) {
-	consumerUnquotes := false
-	for _, n := range []string{"parseTags", "parseOpts", "parseRouteAdd", "parseRouteDel", "parseRouteWeight"} {
-		if f := c.fn("route", n); f != nil {
-			eachInstr(f, func(i ssa.Instruction) {
-				if cc := callCommon(i); cc != nil && strings.HasPrefix(calleeName(cc), "strconv.Unquote") {
-					consumerUnquotes = true
-				}
-			})
-		}
-	}
-	producers := []*ssa.Function{c.method("route", "Route", "TargetConfig"), c.method("registry/consul", "routecmd", "build")}
-	n := 0
-	for _, p := range producers {
-		if p == nil {
-			c.undecided(rule, "anchor|route command producer", "TargetConfig / routecmd.build not found")
-			continue
-		}
-		n++
-		quotes := false
-		var pos token.Pos = p.Pos()
-		eachInstr(p, func(i ssa.Instruction) {
-			cc := callCommon(i)
-			if cc == nil {
-				return
-			}
-			name := calleeName(cc)
-			if strings.HasPrefix(name, "strconv.Quote") || strings.HasPrefix(name, "strconv.AppendQuote") {
-				quotes, pos = true, i.Pos()
-			}
-			if name == "fmt.Sprintf" || name == "fmt.Fprintf" || name == "fmt.Sprint" {
-				for _, a := range cc.Args {
-					if s, ok := constString(a); ok && strings.Contains(s, "%q") && (strings.Contains(s, "tags") || strings.Contains(s, "opts")) {
-						quotes, pos = true, i.Pos()
-					}
-				}
-			}
-		})
-		c.check(rule, fnKey(p)+"|quoted fields written the way the parser reads them", pos, quotes == consumerUnquotes,
-			"the route parser takes the text between the double quotes verbatim (it never unquotes), so a producer that escapes with %q / strconv.Quote writes text that parses into different tags/options (backslashes, non-printable characters) or, for a value containing a quote, into an invalid line")
-	}
-	c.atLeast(rule, "producers of route command text", n, 2)
-}
-
-// ---- W1 -------------------------------------------------------------------------------------
-
-func runC05W1(c *Ctx) {
-	wr := c.method("route", "Table", "weighRoute")
-	sw := c.method("route", "Route", "setWeight")
-	if !c.need("C05.W1", wr, "route.Table.weighRoute") || sw == nil {
-		return
-	}
-	noMatch := c.global("route", "errNoMatch")
-	n := 0
-	eachInstr(wr, func(i ssa.Instruction) {
-		call, ok := i.(*ssa.Call)
-		if !ok || call.Call.StaticCallee() != sw {
-			return
-		}
-		n++
-		// there is a return of errNoMatch under `result == 0`
-		found := false
-		eachInstr(wr, func(j ssa.Instruction) {
-			r, isR := j.(*ssa.Return)
-			if !isR || len(r.Results) != 1 {
-				return
-			}
-			u, isU := r.Results[0].(*ssa.UnOp)
-			if !isU || u.X != noMatch {
-				return
-			}
-			for _, ft := range factsAt(r.Block()) {
-				if b, ok := ft.Cond.(*ssa.BinOp); ok && b.X == call {
-					if z, ok := constInt(b.Y); ok && z == 0 && ((b.Op == token.EQL && ft.Truth) || (b.Op == token.NEQ && !ft.Truth) || (b.Op == token.GTR && !ft.Truth)) {
-						found = true
-					}
-				}
-			}
-		})
-		c.check("C05.W1", "(route.Table).weighRoute|no matching target is reported", call.Pos(), found,
-			"'route weight' that matches no target must fail with the no-match error (the count returned by setWeight must be examined); silently succeeding hides a mistyped service or tag")
-	})
-	c.atLeast("C05.W1", "setWeight calls in weighRoute", n, 1)
 }
 
 // pathAvoidingFromBlockTo: a path from the start of block b to the start of block target avoiding matched instructions.
